@@ -204,6 +204,7 @@ pub fn parse_cmd(line: &str) -> Option<Cmd> {
         "NAP" => Some(Cmd::Nap(hx(t.get(1)?)?)),
         "SF" => Some(Cmd::SF(hx(t.get(1)?)?)),
         "SP16" => Some(Cmd::SetPair(hx(t.get(1)?)? as u8, a16(2)?)),
+        "SWR" => Some(Cmd::SWR { which: hx(t.get(1)?)? as u8, blk: hx(t.get(2)?)?, nblk: hx(t.get(3)?)?, fmask: hx(t.get(4)?)? as u8 }),
         _ => None,
     }
 }
@@ -336,6 +337,20 @@ fn run_property(o: &Opts, out: &mut dyn Write) -> i32 {
             return 2;
         }
     };
+    let mut cases = cases;
+    if std::env::var("VERIF_NO_SWR").is_err() {
+        let sw = props::sweeps_for(prop, &mut rng, &o.tier);
+        if !sw.is_empty() {
+            let nsw = sw.iter().filter(|c| c.cmds.iter().any(|m| matches!(m, Cmd::SWR { .. }))).count() as u64;
+            sweep_evals += nsw * 65536;
+            sweep_info.push(format!(
+                "register sweeps: {} (encoding, 16-bit register) pairs, one step for each of the 65,536 values of the register (memory carried along), {} steps on each side",
+                nsw,
+                nsw * 65536
+            ));
+        }
+        cases.extend(sw);
+    }
     if matches!(prop, "C09") && o.tier == "thorough" {
         exhaustive = true;
     }
@@ -516,6 +531,69 @@ fn run_property(o: &Opts, out: &mut dyn Write) -> i32 {
                     what: "no-failing-input-found".into(),
                     oracle: false,
                 });
+            }
+        }
+    }
+
+    // register sweeps that differ: look for the failing value among single steps from fresh states
+    {
+        let sw: Vec<(String, String, String)> = total
+            .mismatches
+            .iter()
+            .filter(|m| m.cmd.starts_with("SWR"))
+            .take(2)
+            .map(|m| (m.script.clone(), m.key.clone(), m.tag.clone()))
+            .collect();
+        for (script, key, tag) in sw {
+            let mut st: Option<St> = None;
+            let mut swr = None;
+            for l in script.lines() {
+                match parse_cmd(l) {
+                    Some(Cmd::S(s)) | Some(Cmd::SN(s)) => st = Some(*s),
+                    Some(Cmd::SWR { which, blk, nblk, fmask }) => swr = Some((which, blk, nblk, fmask)),
+                    _ => {}
+                }
+            }
+            if let (Some(s0), Some((which, blk, nblk, fmask))) = (st, swr) {
+                let per = 65536 / nblk.max(1);
+                let mut cs = vec![];
+                for k in 0..per {
+                    let v = (blk * per + k) as u16;
+                    let mut s = s0.clone();
+                    match which {
+                        0 => s.set_pair(B, v),
+                        1 => s.set_pair(D, v),
+                        2 => s.set_pair(H, v),
+                        3 => s.set_pair(IXH, v),
+                        4 => s.set_pair(IYH, v),
+                        5 => s.sp = v,
+                        6 => s.pc = v,
+                        _ => s.set_pair(A, v),
+                    }
+                    let mut c = Case::new(format!("{}/value", tag));
+                    c.key = key.clone();
+                    c.push(Cmd::S(Box::new(s)), NONE);
+                    c.push(Cmd::X, props::proj_for_sweep(prop, fmask));
+                    c.push(Cmd::D, Proj { other: props::proj_for_sweep(prop, fmask).regs, ..NONE });
+                    cs.push(c);
+                }
+                let st = run_cases(&o.drv, &o.tmp, cs, o.threads);
+                if st.mismatch_count > 0 {
+                    // the single failing values stand for the sweep line: report those first
+                    if let Some(ix) = total.mismatches.iter().position(|m| m.cmd.starts_with("SWR") && m.script == script) {
+                        total.mismatches.remove(ix);
+                        total.mismatch_count -= 1;
+                    }
+                    let mut st = st;
+                    st.mismatches.truncate(2);
+                    let rest = std::mem::take(&mut total.mismatches);
+                    total.mismatches = st.mismatches.drain(..).collect();
+                    total.mismatches.extend(rest);
+                    total.mismatch_count += st.mismatch_count;
+                    total.oracle_count += st.oracle_count;
+                    total.cases += st.cases;
+                    total.lines += st.lines;
+                }
             }
         }
     }
